@@ -189,7 +189,12 @@ def prune_cache(prefix, keep):
     ents = [os.path.join(CACHE, e) for e in os.listdir(CACHE)
             if e.startswith(prefix) and ".tmp" not in e]
     ents.sort(key=lambda p: os.path.getmtime(p), reverse=True)
+    now = time.time()
     for p in ents[keep:]:
+        # a directory used within the last two hours may belong to a check that is still running
+        # (several checks, or a check against another tree, run side by side)
+        if now - os.path.getmtime(p) < 7200:
+            continue
         shutil.rmtree(p, ignore_errors=True)
 
 
